@@ -100,3 +100,91 @@ package dispatch
 //@ lemma route_continue_goes_on: forall r *Route, L model.LabelSet :: len(r.Routes) == 2 && r.Matchers.Matches(L)
 //@     && matchSeq(r.Routes[0], L) != seq_nil() && r.Routes[0].Continue ==> matchSeq(r, L) == concat(matchSeq(r.Routes[0], L), matchSeq(r.Routes[1], L))
 //@   props C07
+
+// ---- C14 / C06: putting an alert into its aggregation group.
+//@ spec groupStore(ag *aggrGroup) map[model.Fingerprint]*alert.Alert = ag.alerts.alerts
+//@ func (*aggrGroup).invalidateRouteLabels
+//@   inline
+//@ func (*aggrGroup).insert
+//@   props C14 C06
+//@   requires ag != nil && alert != nil && ag.alerts != nil && ag.alerts.alerts != nil && ag.logger != nil && tracer != nil && ctx != nil
+//@            && store.ErrDestroyed != nil && store.ErrLimited != nil && store.ErrDestroyed != store.ErrLimited && bucketOK(ag.alerts, nameOf(alert))
+//@   requires forall f model.Fingerprint :: f in ag.alerts.alerts ==> ag.alerts.alerts[f] != nil
+//@   after call Tracer).Start assume res0 != nil && res1 != nil
+//@   after call errors.Is assume res0 == (ret("SetIfNotOlder") == store.ErrDestroyed)
+//@   ensures [never-older] old(fpA(alert) in ag.alerts.alerts) && old(ag.alerts.alerts[fpA(alert)].UpdatedAt) > alert.UpdatedAt
+//@             ==> result && dom(ag.alerts.alerts) == old(dom(ag.alerts.alerts)) && vals(ag.alerts.alerts) == old(vals(ag.alerts.alerts))
+//@   ensures [monotone] forall f model.Fingerprint :: old(f in ag.alerts.alerts) ==> f in ag.alerts.alerts && ag.alerts.alerts[f].UpdatedAt >= old(ag.alerts.alerts[f].UpdatedAt)
+//@   ensures [refused-only-if-destroyed] !result ==> old(ag.alerts.destroyed) && dom(ag.alerts.alerts) == old(dom(ag.alerts.alerts)) && vals(ag.alerts.alerts) == old(vals(ag.alerts.alerts))
+//@   ensures [inserted] result && ag.alerts.perAlertLimit <= 0 && !old(ag.alerts.destroyed) ==> fpA(alert) in ag.alerts.alerts && ag.alerts.alerts[fpA(alert)].UpdatedAt >= alert.UpdatedAt
+//@   ensures [others] forall f model.Fingerprint :: f != fpA(alert) ==> (f in ag.alerts.alerts) == old(f in ag.alerts.alerts) && ag.alerts.alerts[f] == old(ag.alerts.alerts[f])
+//@   noeffect RecordEvent
+//@   assigns ag.alerts.alerts[*], ag.alerts.limits[*], heap:MD$map[V]*limit.item, heap:MV$map[V]*limit.item, heap:A$*limit.item, heap:H$limit.item, heap:H$limit.Bucket
+
+// C06: the group an alert belongs to under a route is determined by exactly the alert's values of the route's
+// group_by labels (all of its labels for '...').
+//@ func getGroupLabels
+//@   props C06
+//@   requires alert != nil && route != nil
+//@   ensures [fresh] fresh(result)
+//@   ensures [exact-labels] forall ln model.LabelName :: (ln in result) == (ln in alert.Labels && (route.RouteOpts.GroupByAll || ln in route.RouteOpts.GroupBy))
+//@   ensures [same-values] forall ln model.LabelName :: ln in result ==> result[ln] == alert.Labels[ln]
+//@   loop 1 invariant fresh(groupLabels) && groupLabels != alert.Labels && groupLabels != route.RouteOpts.GroupBy
+//@   loop 1 invariant forall ln model.LabelName :: (ln in groupLabels) == (ln in visited && ln in alert.Labels && (route.RouteOpts.GroupByAll || ln in route.RouteOpts.GroupBy))
+//@   loop 1 invariant forall ln model.LabelName :: ln in groupLabels ==> groupLabels[ln] == alert.Labels[ln]
+//@   assigns nothing
+
+//@ func (*aggrGroup).empty
+//@   inline
+//@ func (*aggrGroup).recordResolvedEvents
+//@   trusted
+//@   assigns nothing
+
+// ---- C05 / C06: one flush of an aggregation group.
+// The batch handed to notify is a list of fresh copies, one per stored alert (never a delta); a copy is marked
+// resolved only if its end time had passed at the instant read in flush, otherwise its end time is cleared so it
+// cannot turn resolved further down the pipeline; resolved alerts are deleted only after notify reported
+// success, and only through DeleteIfNotModified with the copies taken before the notification.
+//@ spec resolvedCopy(a *alert.Alert, now time.Time) bool = a.EndsAt != 0 && a.EndsAt <= now
+//@ func (*aggrGroup).flush
+//@   props C05 C06
+//@   requires ag != nil && notify != nil && ag.alerts != nil && ag.alerts.alerts != nil && ag.logger != nil && ag.marker != nil && store.ErrNotFound != nil
+//@   requires forall f model.Fingerprint :: f in ag.alerts.alerts ==> ag.alerts.alerts[f] != nil
+//@   at call dynamic:param:notify assert [never-resolved-early] forall i int :: 0 <= i && i < len(arg0) ==> (arg0[i] != nil && (arg0[i].EndsAt == 0 || arg0[i].EndsAt <= ret("time.Now")))
+//@   at call dynamic:param:notify assert [complete-batch] len(arg0) == len(ret("Alerts).List"))
+//@   at call dynamic:param:notify assert [copies] forall i int :: 0 <= i && i < len(arg0) ==> fresh(arg0[i])
+//@   at call DeleteIfNotModified assert [delete-only-after-success] called("dynamic:param:notify") && ret("dynamic:param:notify") && arg2
+//@   at call DeleteIfNotModified assert [delete-only-resolved] forall i int :: 0 <= i && i < len(arg1) ==> (arg1[i] != nil && fresh(arg1[i]) && resolvedCopy(arg1[i], ret("time.Now")))
+//@   ensures [no-notify-no-change] !called("dynamic:param:notify") ==> dom(ag.alerts.alerts) == old(dom(ag.alerts.alerts)) && ag.alerts.destroyed == old(ag.alerts.destroyed)
+//@   ensures [failed-notify-no-change] called("dynamic:param:notify") && !ret("dynamic:param:notify") ==> !called("DeleteIfNotModified")
+//@   loop 1 invariant rangeindex < len(alerts) && fresh(alertsSlice) && fresh(resolvedSlice) && len(alertsSlice) == rangeindex + 1 && len(resolvedSlice) <= rangeindex + 1 && base(alertsSlice) != base(resolvedSlice)
+//@   loop 1 invariant forall i int :: 0 <= i && i < len(alertsSlice) ==> (alertsSlice[i] != nil && fresh(alertsSlice[i]) && (alertsSlice[i].EndsAt == 0 || alertsSlice[i].EndsAt <= ret("time.Now")))
+//@   loop 1 invariant forall i int :: 0 <= i && i < len(resolvedSlice) ==> (resolvedSlice[i] != nil && fresh(resolvedSlice[i]) && resolvedCopy(resolvedSlice[i], ret("time.Now")))
+//@   loop 1 invariant forall i int :: 0 <= i && i < len(alerts) ==> alerts[i] != nil
+//@   noeffect dynamic:param:notify, marker.AlertMarker).Delete
+
+// ---- C06: the lock-free group table (sync.Map). These functions are outside the sequential subset (other goroutines
+// act between the atomic steps), so only path obligations that do not depend on the interleaving are stated:
+// a new group always holds its first alert before it is published, it is started only after it was published,
+// the call never returns without a successful insert unless it reported the refusal, and maintenance removes and
+// un-counts only groups it observed destroyed.
+//@ func (*Dispatcher).groupAlert
+//@   props C06
+//@   abstract
+//@   nosafe
+//@   requires alert != nil && route != nil
+//@   at call sync.Map).LoadOrStore assert [first-alert-before-publication] called("newAggrGroup") && count("aggrGroup).insert") >= 1
+//@   at call sync.Map).CompareAndSwap assert [first-alert-before-swap] called("newAggrGroup") && count("aggrGroup).insert") >= 1
+//@   at call Dispatcher).runAG assert [run-only-published] (called("LoadOrStore") && !ret1("LoadOrStore")) || (called("CompareAndSwap") && ret("CompareAndSwap"))
+//@   ensures [no-silent-loss] count("aggrGroup).insert") >= 1 || called("errors.New")
+//@   loop 1 invariant called("newAggrGroup") && count("aggrGroup).insert") >= 1
+//@   noeffect newAggrGroup aggrGroup).insert runAG resetTimer cancel Route).Key MaxNumberOfAggregationGroups
+
+//@ func (*Dispatcher).doMaintenance$1
+//@   props C06
+//@   abstract
+//@   nosafe
+//@   at call sync.Map).CompareAndDelete assert [delete-only-destroyed] called("aggrGroup).destroyed") && ret("aggrGroup).destroyed")
+//@   at call DeleteByGroupKey assert [uncount-only-deleted] called("CompareAndDelete") && ret("CompareAndDelete")
+//@   at call atomic.Int64).Add assert [uncount-only-deleted2] called("CompareAndDelete") && ret("CompareAndDelete")
+//@   noeffect aggrGroup).destroyed aggrGroup).stop DeleteByGroupKey fingerprint GroupKey
